@@ -23,6 +23,8 @@ R20.wr      in VectorizedFunction/MemberFunction::apply the masked accessor of x
             arguments through ReadOnly*Access; every normal return of apply passes through a dispatchTask
 R20.dispatch dispatchTask(task, length) runs the task over [0, length) exactly once on every path (pool dispatch xor inline
             execute): run counts propagated over its control-flow skeleton
+R20.elem    array-valued operations written as a plain loop read their argument arrays only at the loop index (no element-0
+            attribute hoisted out of the loop)
 R20.acc     (checks/c20ir.py, on the IR) element i of a Direct accessor is storage[i * stride], of a Masked accessor
             storage[indices[i] * stride] - what FixedArray::operator[] designates; accessor constructors take storage, stride and
             index table from the array and complete only on an array of their kind (writable ones only on a writable array)
@@ -639,7 +641,30 @@ def rule_dispatch(fx, out):
         out.append(('R20.dispatch', sname(f), VIOLATED if bad else HOLDS, bad or 'every path runs the task over [0, length) exactly once (pool dispatch or inline execute)', f['loc']))
     return n
 
-RULES = [('dispatch', rule_dispatch), ('range', rule_range_index), ('len', rule_len), ('wr', rule_wr), ('gil', rule_gil), ('shared', rule_shared), ('taskmembers', rule_taskmembers), ('regorder', rule_regorder), ('strcmp', rule_strcmp), ('ops', rule_ops), ('loops', rule_loops), ('unmasked', rule_unmasked)]
+def rule_elem(fx, out):
+    """array-valued operations written as a plain loop (`for i: result[i] = f(a[i], b[i])`): the element at position i is computed
+    from the argument elements at position i - every subscript of a *parameter* array in a function that returns an array is
+    the induction variable of one of its loops.  A constant subscript (`e[0]`, a per-array attribute hoisted out of the loop)
+    makes position i depend on another element, which the scalar binding applied to element i alone cannot reproduce."""
+    n = 0; seen = set()
+    for f in fx.fns:
+        if f.key in seen: continue
+        loops = f.get('loops') or []
+        if not loops: continue
+        if not any(e['k'] == 'construct' and e.get('returned') and e.get('cls') in ('FixedArray', 'FixedVArray', 'FixedArray2D', 'FixedMatrix') for e in f.events): continue
+        ivs = set(l.get('var') for l in loops if l.get('var'))
+        subs = [e for e in f.events if e['k'] == 'call' and re.search(r'Fixed(V?Array)<.*>::(operator\[\]|direct_index|unchecked_index|getitem)$', e['name']) and str(e.get('objKind', '')).startswith('param:')]
+        if not subs: continue
+        seen.add(f.key); n += 1
+        bad = None
+        for e in subs:
+            idx = e['args'][-1].replace(' ', '')
+            if idx in ivs: continue
+            if re.match(r'^-?\d+[uUlL]*$', idx): bad = 'argument array %s is read at the constant position %s: the result at every position depends on that one element (an attribute taken from element %s is applied to all)' % (e['obj'], idx, idx); break
+        out.append(('R20.elem', 'elem:%s' % sname(f), VIOLATED if bad else HOLDS, bad or '%d subscripts of argument arrays, each at the loop index' % len(subs), f['loc']))
+    return n
+
+RULES = [('elem', rule_elem), ('dispatch', rule_dispatch), ('range', rule_range_index), ('len', rule_len), ('wr', rule_wr), ('gil', rule_gil), ('shared', rule_shared), ('taskmembers', rule_taskmembers), ('regorder', rule_regorder), ('strcmp', rule_strcmp), ('ops', rule_ops), ('loops', rule_loops), ('unmasked', rule_unmasked)]
 
 def main(rep, ws, tier):
     repo = build.REPO
@@ -649,7 +674,7 @@ def main(rep, ws, tier):
     for name, fnc in RULES: fnc(pos, pout)
     fired = set(r for r, oid, st, det, w in pout if st == VIOLATED)
     quiet = set(r for r, oid, st, det, w in pout if st == HOLDS)
-    need = {'R20.range', 'R20.index', 'R20.len', 'R20.gil', 'R20.shared', 'R20.dispatch'}
+    need = {'R20.range', 'R20.index', 'R20.len', 'R20.gil', 'R20.shared', 'R20.dispatch', 'R20.elem'}
     if need - fired: rep.fail_incomplete('positive examples (selftest/pyrules_pos.cpp) no longer fire for %s' % sorted(need - fired))
     if need - quiet: rep.fail_incomplete('negative examples (selftest/pyrules_pos.cpp) no longer pass for %s' % sorted(need - quiet))
     rep.extra['positive_examples'] = {'fired': sorted(fired), 'quiet': sorted(quiet)}
@@ -661,6 +686,7 @@ def main(rep, ws, tier):
     nacc = c20ir.main_access(rep, ws)
     rep.floor('element accessor members (operator[] and constructors)', nacc, 9)
     rep.floor('dispatchTask definitions', counts['dispatch'], 1)
+    rep.floor('array-valued loop functions (element independence)', counts['elem'], 15)
     rep.floor('Task::execute overrides', counts['range'], 35)
     rep.floor('dispatchTask sites + length helpers', counts['len'], 60)
     rep.floor('vectorised apply functions', counts['wr'], 8)
